@@ -117,6 +117,13 @@ def run_writer(ctx, q, name, shape):
                 and eng.ev(node.func.value, st) == FILE:
             st.effects = st.effects + (("<file>." + node.func.attr, tuple(args), (), node),)
             return Const(None)
+        if nm == "print" and isinstance(node.func, ast.Name) and "print" not in st.env and kw.get("file") == FILE and set(kw) <= {"file", "end", "sep", "flush"} \
+                and all(is_str(a) for a in args) and all(isinstance(kw.get(k, Lit("")), Lit) for k in ("end", "sep")):
+            # print of text to the file: the pieces joined by `sep`, then `end`
+            sep, end = kw.get("sep", Lit(" ")), kw.get("end", Lit("\n"))
+            text = cat(*[x for i, a in enumerate(args) for x in ((sep, a) if i else (a,))], end)
+            st.effects = st.effects + (("<file>.write", (text,), (), node),)
+            return Const(None)
         return NotImplemented
 
     eng = Engine(ctx, BULK, fn, cond=_field_cond, call=call, env=env, post=_text_post, strict_locals=True, inline=lambda n: n not in FLOATW)
@@ -127,6 +134,7 @@ def run_writer(ctx, q, name, shape):
         raise Crash(f"{q} raises {crash[0].value.s} for this card")
     texts = []
     for lf in leaves:
+        _no_escape(eng, lf, FILE, f"{q}: the file")
         out = []
         for nm, args, kw, node in lf.state.effects:
             if nm == "<file>.write":
@@ -141,6 +149,20 @@ def run_writer(ctx, q, name, shape):
     if not texts or any(t != texts[0] for t in texts):
         raise Unsupported(f"{q}: {len(texts)} different texts for one card (undecided: {[f[0] for lf in leaves for f in lf.state.facts][:3]})")
     return texts[0]
+
+
+def _no_escape(eng, lf, obj, what):
+    """the file / the line iterator must be used only where the evaluation sees it: once it is handed to code that is not followed
+    (a class, a library function) what is written / how many lines are taken is not determined"""
+    for nm, args, kw, node in lf.state.effects:
+        if nm.startswith("<"):
+            continue
+        fn = eng.mod.funcs.get(nm)
+        if fn is not None and "." not in nm and eng.inline is not None and eng.inline(nm):
+            continue                                 # followed: its own use of the object is part of the path
+        vals = list(args or ()) + [v for _, v in (kw or ())]
+        if args is None or any(x == obj for v in vals for x in walk_value(v)):
+            raise Unsupported(f"{what} is handed to `{nm}`, which is not followed")
 
 
 def formatters_in(text):
@@ -239,13 +261,18 @@ def run_reader(ctx, q, lines, n, conchar, fixed=True):
             if at is not None and not fs and b is False:
                 return Lit("".join(a.s for a, _ in at).strip())
             return Opaque("misread", (x,))
-        if isinstance(node.func, ast.Attribute) and node.func.attr in ("split", "partition", "rpartition") and len(args) == 1 \
-                and isinstance(args[0], Lit) and len(args[0].s) == 1:
+        if isinstance(node.func, ast.Attribute) and node.func.attr in ("split", "partition", "rpartition") and args \
+                and isinstance(args[0], Lit) and len(args[0].s) == 1 and not kw \
+                and (len(args) == 1 or (node.func.attr == "split" and len(args) == 2 and as_int(args[1]) is not None)):
             # card text cut at a character: only literal pieces can hold it (fields are numbers / names without '$', ',', '*')
             recv = eng.ev(node.func.value, st)
             if is_str(recv) and atoms(recv) is not None:
                 toks = split_commas(recv, args[0].s).items
                 if node.func.attr == "split":
+                    m = as_int(args[1]) if len(args) == 2 else -1
+                    if 0 <= m < len(toks) - 1:       # at most m cuts: the rest stays one piece
+                        rest = [x for i, t in enumerate(toks[m:]) for x in ((args[0], t) if i else (t,))]
+                        toks = toks[:m] + (cat(*rest),)
                     return Tup(toks)
                 if len(toks) == 1:
                     return Tup((recv, Lit(""), Lit(""))) if node.func.attr == "partition" else Tup((Lit(""), Lit(""), recv))
@@ -286,6 +313,8 @@ def run_reader(ctx, q, lines, n, conchar, fixed=True):
     eng = Engine(ctx, BULK, fn, cond=cond, call=call, env=env, post=post, strict_locals=True, inline=lambda nm: nm != "nas_sscanf")
     leaves = eng.run()
     rets = [lf for lf in leaves if lf.kind == "return"]
+    for lf in leaves:
+        _no_escape(eng, lf, ITER, f"{q}: the line iterator")
     crash = [lf for lf in leaves if lf.kind == "raise" and isinstance(lf.value, Lit) and not lf.state.facts]
     if crash and not rets:
         raise Crash(f"{q} raises {crash[0].value.s} for this card")
@@ -384,7 +413,8 @@ def _reaching(mod, targets):
     for nm, fn in mod.funcs.items():
         if "." in nm or "#" in nm:
             continue
-        calls[nm] = {n.func.id for n in ast.walk(fn) if isinstance(n, ast.Call) and isinstance(n.func, ast.Name)}
+        # a function is reached by calling it or by handing it on as a value (`reader = _rdfixed`)
+        calls[nm] = {n.id for n in ast.walk(fn) if isinstance(n, ast.Name) and isinstance(n.ctx, ast.Load) and n.id in mod.funcs}
     reach = set(targets)
     grew = True
     while grew:
